@@ -239,11 +239,19 @@ fn replay_specific(prop: &str, kind: &str, case: &J, rule: &tau_engine::Rule, ru
             Some(verdict_line(prop, path, events.iter().any(|(_, k)| k == asked)))
         }
         ("C17", _) => {
-            let orig = case["extra"]["original_order_rule"].as_str()?;
+            let orig = case["extra"]["original_order_rule"].as_str().or(case["extra"]["first_order_rule"].as_str())?;
             let d = doc_from_text(case["doc"].as_str().unwrap_or("{}"));
             let m = to_yaml_map(&d);
-            let a = eng::load_ok(orig).and_then(|r| eng::matches(&r, &m).ok());
-            let b = eng::matches(rule, &m).ok();
+            // (the block-chain stage compares one optimised form of the two orders)
+            let fsw = match case["extra"]["form"].as_str() {
+                Some("all switches") => 15u8,
+                Some("coalesce+shake") => 3,
+                Some("shake") => 2,
+                _ => 0,
+            };
+            let form = |r: tau_engine::Rule| if fsw == 0 { r } else { eng::optimise(&r, Sw(fsw)).unwrap_or(r) };
+            let a = eng::load_ok(orig).map(form).and_then(|r| eng::matches(&r, &m).ok());
+            let b = eng::matches(&form(rule.clone()), &m).ok();
             println!("original order: {:?}  permuted order: {:?}", a, b);
             Some(verdict_line(prop, path, a != b))
         }
